@@ -180,6 +180,19 @@ def replay_state(st: dict, out: dict, lazy: bool = False) -> None:
                         raised = type(exc).__name__
                     if marker_empty and raised:
                         V(["C10"], f"attach_payload on a marker without payload raised {raised}", step=i, target=tg)
+                    if tg == "leaf" and final:
+                        # a leaf declared WITHOUT content is still not a marker: attaching must be refused as well
+                        from lsst.daf.relation import LeafRelation
+                        bare = LeafRelation(w.eng["it1"], build.tags(("a", "b")), None, name="N", min_rows=0, max_rows=None)
+                        try:
+                            bare.attach_payload(object())
+                            V(["C10"], "attach_payload on a leaf relation constructed without a payload did not raise (TypeError expected)", step=i)
+                        except TypeError:
+                            pass
+                        except Exception as exc:  # noqa: BLE001
+                            V(["C10"], f"attach_payload on a leaf relation raised {type(exc).__name__} (TypeError expected)", step=i)
+                        if bare.payload is not None:
+                            V(["C10"], "a rejected attach_payload set the payload of a leaf relation", step=i)
                     if not marker_empty:
                         if raised != "TypeError":
                             V(["C10"], f"attach_payload on {'a marker that already has a payload' if tg.startswith('mat:') else 'a non-marker relation'} "
